@@ -80,6 +80,12 @@ def _gen_scope_init(rng):
     if rng.random() < 0.15:
         init["config"].append(["difftool.nbdime.cmd", 'git-nbdifftool diff "$LOCAL" "$REMOTE" "$BASE"'])
     rng.shuffle(init["config"])
+    if rng.random() < 0.15:
+        # a key that occurs twice in the file (a second [merge] block appended by an installer, `git config --add`):
+        # git answers with the last value, the earlier one is someone else's setting all the same
+        k = rng.choice(["merge.tool", "diff.guitool"])
+        init["config"] = [kv for kv in init["config"] if kv[0] != k] + [[k, rng.choice(["kdiff3", "meld"])], [k, rng.choice(["nbdime", "nbdime", "p4merge"])]]
+        init["multi"] = True
     r = rng.random()
     if r < 0.3:
         init["attrs"] = None
@@ -126,7 +132,10 @@ def generate(rng, index, cfg):
                 val = rng.choice([dict(FOREIGN)[key], "changed-by-user", None])
             else:
                 val = rng.choice([dict(FOREIGN)[key], None])      # (only values git accepts for keys it interprets)
-            ops.append({"op": "user", "scope": rng.choice(["local", "global"]), "key": key, "value": val})
+            uop = {"op": "user", "scope": rng.choice(["local", "global"]), "key": key, "value": val}
+            if val is not None and rng.random() < 0.3:
+                uop["add"] = True        # `git config --add`: the key becomes multi-valued (a second [merge] block)
+            ops.append(uop)
             continue
         comp = rng.choice(COMPONENTS)
         op = {"op": "cmd", "component": comp, "enable": rng.random() < 0.6,
@@ -254,7 +263,7 @@ class Runner:
         for scope, path in (("local", self.local_attrs), ("global", self.global_attrs)):
             init = tw[scope]
             for k, v in init["config"]:
-                w.git("config", "--" + scope, k, v)
+                w.git("config", "--" + scope, "--add", k, v)
             if init["attrs"] is not None:
                 os.makedirs(os.path.dirname(path), exist_ok=True)
                 with open(path, "w") as f:
@@ -582,6 +591,21 @@ class Runner:
                 self.stat("probe_disable_checked")
             return
         # enable: effective + idempotent
+        if outcome != "rc0":
+            sets = []
+            if comp in ("difftool", "config-git"):
+                sets += ["difftool.nbdime.cmd", "difftool.prompt"] + (["diff.guitool"] if op.get("set_default") else [])
+            if comp in ("mergetool", "config-git"):
+                sets += ["mergetool.nbdime.cmd", "mergetool.prompt"] + (["merge.tool"] if op.get("set_default") else [])
+            if comp in ("diffdriver", "config-git"):
+                sets += ["diff.jupyternotebook.command"]
+            if comp in ("mergedriver", "config-git"):
+                sets += ["merge.jupyternotebook.driver", "merge.jupyternotebook.name"]
+            if any(sum(1 for k, _ in before[target] if k == s_) > 1 for s_ in sets):
+                # git itself refuses to replace a multi-valued key by a single value ("cannot overwrite multiple
+                # values with a single value"); the command reports that failure - nothing further is demanded of it
+                self.stat("enable_refused_by_git_multivalued_key")
+                return
         if in_repo or target == "global":
             for what, routed_key in (("diffdriver", "routed_diff"), ("mergedriver", "routed_merge")):
                 if comp in (what, "config-git") and not after[routed_key]:
@@ -624,8 +648,12 @@ class Runner:
             if op["op"] == "user":
                 if op["value"] is None:
                     self.w.git("config", "--" + op["scope"], "--unset-all", op["key"], check=False)
+                elif op.get("add"):
+                    self.w.git("config", "--" + op["scope"], "--add", op["key"], op["value"], check=False)
+                    self.stat("user_edits_multivalued")
                 else:
-                    self.w.git("config", "--" + op["scope"], op["key"], op["value"], check=False)
+                    # (--replace-all: the key may be multi-valued by now)
+                    self.w.git("config", "--" + op["scope"], "--replace-all", op["key"], op["value"], check=False)
                 self.stat("user_edits_between_commands")
                 self.log.ev("user", key=op["key"], scope=op["scope"], value=op["value"])
                 continue
